@@ -17,6 +17,7 @@ func init() {
 			"D2 the cap is applied — getNewLength of both types is min(embedded getNewLength(range), limit field) and every growth of the bin array in the collapsing types takes its length from that method. "+
 			"D3 collapsed short-circuit — normalize returns the edge slot (0 / len−1) whenever the index is beyond the collapsing edge and the collapsed flag is set, and re-tests the flag after extending the range; the flag is raised only inside the type's own adjust (or helpers called only from it), Clear lowers it. "+
 			"D4 Copy keeps kind, limit and collapsed state (C14-D2 obligations are re-evaluated here for the two types). "+
+			"D5 truncating integer division in the dense family's index arithmetic is applied only to widths (index coefficients cancel) or lengths — `(min+max+1)/2` rounds toward zero, i.e. the wrong way for negative midpoints, and shifts the window by one slot. "+
 			"NOT DECIDED: where folded weight lands, conservation of weight through adjust/shiftCounts, and merge safety of a store wider than 2·N into an empty collapsing store (needs the relational invariant maxIndex−minIndex+1 ≤ len(bins); recorded in DESIGN.md, not detectable by these rules).",
 		"one obligation per (collapsing type × promoted method), per growth site, per normalize path, per writer of the collapsed flag; exhaustive over method sets",
 		true, runC05)
@@ -78,6 +79,7 @@ func runC05(c *Ctx) {
 		c.R.undecided("C05", "anchors", "", "", "collapsing store types resolve by role", err)
 		return
 	}
+	c05Halving(c, "C05-D5")
 	for _, ct := range cts {
 		c05Shadow(c, ct)
 		c05Cap(c, ct)
@@ -523,4 +525,62 @@ func binsType(dense *types.Named) types.Type {
 		}
 	}
 	return nil
+}
+
+// c05Halving (C05-D5 / C04): Go's integer division truncates toward zero. In the index arithmetic of
+// the dense family a quotient must therefore be taken of a width (a difference of indexes, a length),
+// never of a sum of indexes that can be negative — `(min+max+1)/2` rounds the wrong way for negative
+// midpoints while `min + (max-min+1)/2` does not.
+func c05Halving(c *Ctx, rule string) {
+	dense := c.P.NamedType(pkgStore, "DenseStore")
+	if dense == nil {
+		return
+	}
+	var types_ []*types.Named
+	types_ = append(types_, dense)
+	if cts, err := collapsingTypes(c); err == "" {
+		for _, ct := range cts {
+			types_ = append(types_, ct.t)
+		}
+	}
+	n := 0
+	for _, t := range types_ {
+		for i := 0; i < t.NumMethods(); i++ {
+			f := c.P.SSA.FuncValue(t.Method(i))
+			if f == nil {
+				continue
+			}
+			tc := newTermCtx(c.P)
+			nth := 0
+			for _, b := range f.Blocks {
+				for _, in := range b.Instrs {
+					bo, ok := in.(*ssa.BinOp)
+					if !ok || bo.Op.String() != "/" || !isInteger(bo.Type()) || isUnsigned(bo.Type()) {
+						continue
+					}
+					n++
+					nth++
+					dt := tc.Of(bo.X)
+					l := linearOf(dt)
+					sum := 0
+					okAtoms := true
+					for k, co := range l.Coef {
+						at := l.Atoms[k]
+						if at.Op == "builtin" && (at.Sym == "len" || at.Sym == "cap") {
+							continue // a length is non-negative
+						}
+						if at.Op == "const" {
+							continue
+						}
+						sum += co
+						_ = k
+					}
+					ok = okAtoms && sum == 0
+					c.R.check(ok, rule, fmt.Sprintf("%s/int-division#%d/dividend-is-a-width", funcName(f), nth), funcName(f), c.ipos(bo),
+						"integer division (truncating toward zero) is applied to a width — index coefficients cancel — or a length, never to a sum of possibly negative indexes", "dividend "+l.Key())
+				}
+			}
+		}
+	}
+	c.R.floor(rule, "integer divisions in dense-family index arithmetic", n, 2)
 }
